@@ -35,6 +35,12 @@ def generate():
         append='#[path = "../h_put.rs"]\npub mod harness;\n',
         require=["async fn payment_for_us_exists_and_is_still_valid", "async fn validate_key_and_existence",
                  "pub(crate) async fn store_replicated_in_record", "pub(crate) async fn validate_and_store_scratchpad_record"]))
+    # the node's own quote creation / verification and the duty check on neighbours' quotes (C13, C03)
+    meta.append(transplant_file(
+        "ant-node/src/quote.rs", f"{DST}/node_quote.rs",
+        {"ant_evm": "crate::shim::ant_evm", "ant_networking": "crate::shim::ant_networking", "ant_protocol": "crate::shim::ant_protocol", "std": "crate::shim::std"},
+        append='#[path = "../h_node_quote.rs"]\npub mod harness;\n',
+        require=["fn create_quote_for_storecost", "fn verify_quote_for_storecost", "async fn quotes_verification"]))
     # the contract wrapper of evmlib (C03): verify_data_payment over a model PaymentVaultHandler
     v, mv = extract_items("evmlib/src/contract/payment_vault/mod.rs", [("fn", "verify_data_payment")])
     meta.append(mv)
